@@ -1495,8 +1495,9 @@ class VerificationServiceClass(ServiceClass):
                         "bound to 'evt.EVT_C_ECHO' must contain"
                         "a (0000,0900) Status element"
                     )
+                allowed = ("Status",) + tuple(rsp.STATUS_OPTIONAL_KEYWORDS)
                 for elem in status:
-                    if hasattr(rsp, elem.keyword):
+                    if elem.keyword in allowed and hasattr(rsp, elem.keyword):
                         setattr(rsp, elem.keyword, elem.value)
                     else:
                         LOGGER.warning(
@@ -1504,7 +1505,7 @@ class VerificationServiceClass(ServiceClass):
                             f"bound to 'evt.EVT_C_ECHO' contained an "
                             f"unsupported Element '{elem.keyword}'"
                         )
-            elif isinstance(status, int):
+            elif isinstance(status, int) and 0 <= status <= 0xFFFF:
                 rsp.Status = status
             else:
                 raise TypeError(
